@@ -194,8 +194,14 @@ func (table *Table) DispatchAggregate(buf []byte) {
 	routed := false
 	log.Tracef("table received aggregate packet %s", buf)
 
+	// like for regular metrics, routes filter on the name only
+	name := buf
+	if pos := bytes.IndexByte(buf, ' '); pos >= 0 {
+		name = buf[:pos]
+	}
+
 	for _, route := range conf.routes {
-		if route.Match(buf) {
+		if route.Match(name) {
 			routed = true
 			log.Tracef("table sending to route: %s", buf)
 			route.Dispatch(buf)
